@@ -1,7 +1,10 @@
 fn main() {
     let db = rbx_reflection_database::get();
-    let c = &db.classes["StarterPlayer"];
-    for (n, p) in c.properties.iter() {
-        if n.starts_with("GameSettings") { println!("{} {:?} {:?}", n, p.data_type, p.kind); }
+    let c = &db.classes["BasePart"];
+    for n in ["Size","size","Color","Color3uint8","BrickColor","brickColor","Anchored"] {
+        let p = &c.properties[n];
+        println!("{} {:?} {:?} scriptability={:?} tags={:?}", n, p.data_type, p.kind, p.scriptability, p.tags);
     }
+    let c = &db.classes["Instance"];
+    for n in ["Tags","Attributes","AttributesSerialize","Name"] { if let Some(p)=c.properties.get(n) { println!("{} {:?} {:?}", n, p.data_type, p.kind);} }
 }
